@@ -20,4 +20,19 @@ PROPS = {
         "theorems_note": "Props/C15.v: one theorem per combinator, for all types, inputs and closures (closures in a call-log monad)",
         "assumes": ["Rust closures are modelled as functions into a call-log writer monad; From<E> conversion is a logged function"],
     },
+    "C02": {
+        "streams": [
+            {"name": "rd", "module": "rd", "quick": 3000, "thorough": 60000, "profiles": ["debug", "release"],
+             "oracle_prefix": "o_rd"},
+            {"name": "o_rd", "module": "rd", "quick": 3000, "thorough": 60000, "kind": "oracle",
+             "profiles": ["debug"], "args": {"prefix": "o_rd"}},
+        ],
+        "rule": "random sources (short reads, Interrupted, EOF/error at any offset, BufReader leftovers) x random histories over the "
+                "whole reader API with small chunk sizes so that realign/shrink happen; non-trivial = more than 4 source bytes and "
+                "more than 10 operations; distinct by case text",
+        "theorems_note": "Props/C02.v: invariant for every reachable state of every history and source; per-operation specifications "
+                         "in terms of the delivered/consumed history; conservation w.r.t. honest sources",
+        "assumes": ["std::io::Read/Chain/Cursor/BufReader and Vec operations as modelled in Reader.v (validated by the rd stream)",
+                    "sizes below 2^62 (no usize overflow in pos_in_buf + valid_len + chunk_size); wrapping position/mark are modelled"],
+    },
 }
